@@ -7,6 +7,7 @@
 From Coq Require Import Lia.
 From Coercion.Base Require Import Plan.
 From Coercion.Engine Require Import Shape Event Action ChecksRun AutoLemmas.
+From Coercion.C06 Require Import MonC06.
 
 Inductive gop :=
 | OpMark (i : nat)
@@ -59,7 +60,6 @@ Definition okish (a : ast) : bool :=
 Definition quiet (a : ast) : bool :=
   match a with ARun _ | APend false _ | ADone false _ => true | _ => false end.
 
-Definition all_true (l : list bool) : bool := forallb (fun x => x) l.
 
 (* fl = the monitor's flags of the group's n actions *)
 Definition gfl (n : nat) (g : gst) (fl : list bool) : Prop :=
